@@ -3,6 +3,7 @@
 //!        pngv <prop> --replay-case "<case line>"
 mod c14;
 mod c04;
+mod c07;
 mod c15;
 mod gen;
 mod pngbuild;
@@ -52,6 +53,7 @@ fn main() {
             "C14" => c14::replay(case),
             "C15" => c15::replay(case),
             "C04" => c04::replay(case),
+            "C07" => c07::replay(case),
             _ => "unknown-property".to_string(),
         };
         println!("{}", r);
@@ -61,6 +63,7 @@ fn main() {
         "C14" => c14::run(&a),
         "C15" => c15::run(&a),
         "C04" => c04::run(&a),
+        "C07" => c07::run(&a),
         _ => {
             eprintln!("unknown property {}", prop);
             std::process::exit(2);
